@@ -124,6 +124,9 @@ def _data(case, conds):
     if kind == 'counts':    # spike counts incl. zeros
         lam = 4.0 * np.exp(0.8 * rs.randn(len(uc), P))
         return rs.poisson(lam[ci]).astype(float)
+    if kind == 'counts-int':    # the same counts STORED AS INTEGERS (the dataset keeps the integer dtype)
+        lam = 4.0 * np.exp(0.8 * rs.randn(len(uc), P))
+        return rs.poisson(lam[ci]).astype(np.int64)
     raise ValueError(kind)
 
 
@@ -162,7 +165,8 @@ def _dataset(X, conds, folds=None):
     od = {'cond': list(conds)}
     if folds is not None:
         od['fold'] = list(folds)
-    return Dataset(np.array(X, dtype=float), obs_descriptors=od, descriptors={'subj': 'S1'})
+    X = np.asarray(X)
+    return Dataset(np.array(X, dtype=X.dtype if X.dtype.kind in 'iu' else float), obs_descriptors=od, descriptors={'subj': 'S1'})
 
 
 # ------------------------------------------------------------------------------------------------ spec
@@ -604,6 +608,11 @@ def tier_c(run, thorough):
                                 bd.check(orc_crossnobis, case,
                                          'crossnobis-' + _noise_class(mode) + ('+remove_mean' if rm else ''),
                                          nontrivial=not (rm and P == 1), function='calc_rdm_crossnobis')
+                                if k % 4 == 0 and not rm:
+                                    # integer-typed measurements (spike counts): fold means are not integers
+                                    bd.check(orc_crossnobis, dict(case, data='counts-int'),
+                                             'crossnobis-' + _noise_class(mode) + ',integer-typed-data',
+                                             function='calc_rdm_crossnobis')
     bd.done()
     bds.append(bd)
 
@@ -754,6 +763,8 @@ def tier_c(run, thorough):
                             if k % 3 == 0:
                                 case['relabel'] = 'str' if fkinds[(k // 5) % 4] != 'str' else 'int-unordered'
                             bd.check(orc_poisson, case, 'poisson_cv', function='calc_rdm_poisson_cv')
+                            if case['seed'] % 3 == 0:
+                                bd.check(orc_poisson, dict(case, data='counts-int'), 'poisson_cv,integer-typed-data', function='calc_rdm_poisson_cv')
     bd.done()
     bds.append(bd)
 
